@@ -32,12 +32,14 @@ VARIABLES c
 KA == <<97>>
 KB == <<98>>
 IpN == [j |-> "ip", v |-> <<1, 2, 3, 4>>, txt |-> <<49, 46, 50, 46, 51, 46, 52>>]
+(* an IPv4-mapped IPv6 address: must stay an IPv6 address through every encoding *)
+IpM == [j |-> "ip", v |-> <<0, 0, 0, 0, 0, 0, 0, 0, 0, 0, 255, 255, 1, 2, 3, 4>>, txt |-> <<58, 58, 102, 102, 102, 102, 58, 49, 46, 50, 46, 51, 46, 52>>]
 Null == [j |-> "null"]
 N0 == JNum(IntOfNat(0))
 N255 == JNum(IntOfNat(255))
 N256 == JNum(IntOfNat(256))
 NM1 == JNum(<<-1, 65535, 65535, 65535>>)
-S == {JBool(TRUE), N0, N255, N256, NM1, JStr(KA), JStr(<<>>), IpN, Null}
+S == {JBool(TRUE), N0, N255, N256, NM1, JStr(KA), JStr(<<>>), IpN, IpM, Null}
 Upto2(X) == {<<>>} \cup {<<x>> : x \in X} \cup {<<x, y>> : x \in X, y \in X}
 Arrs(X) == {JArr(s) : s \in Upto2(X)}
 Objs(X) == {JObj(s) : s \in Upto2({[k |-> k, v |-> x] : k \in {KA, KB}, x \in X})}
